@@ -211,4 +211,13 @@ theorem events_serial (cfg : R.Cfg) (st : R.State) (hr : R.Reachable cfg st) :
   have hi := R.allInv_reachable cfg st hr
   exact ⟨hi.events.2.1, hi.events.1, hi.events.2.2, hi.fifo⟩
 
+/-- "issued from any number of goroutines": every goroutine entering the client API, and the dealer
+    for invocation ids, draws from `Session.IDGen`; `ids_unique` speaks of one sequential generator, so
+    the field must be the mutex-protected `SyncIDGen`, whose `Next` is lock; defer unlock; the
+    sequential `IDGen.Next` (facts regenerated from wamp/session.go and wamp/idgen.go). -/
+theorem idgen_is_synchronised :
+    Nexus.Gen.sessionIDGenType = "SyncIDGen" ∧
+    Nexus.Gen.syncIDGenNext = ["g.lock.Lock()", "defer g.lock.Unlock()", "return g.IDGen.Next()"] := by
+  decide
+
 end Nexus.C16
